@@ -106,6 +106,9 @@ pub fn replay_calls(cfg: &Cfg, calls: &[WCall], burst_ix: usize, cuts: &[usize])
             WCall::SetPingresp(ms) => {
                 w.set_pingresp(*ms);
             }
+            WCall::SetAuto(which, on) => {
+                w.set_auto(*which, *on);
+            }
             WCall::Crash(m) => {
                 w.crash_restore(*m);
             }
@@ -262,6 +265,11 @@ pub fn fork(kind: ForkKind, cfg_a: &Cfg, cfg_b: &Cfg, head_a: &[Op], head_b: &[O
         }
         if a.w.opts.pingresp_to_ms != b.w.opts.pingresp_to_ms {
             b.exec(&Op::SetPingresp { ms: a.w.opts.pingresp_to_ms });
+        }
+        for (which, x, y) in [(0u8, a.w.opts.auto_pub, b.w.opts.auto_pub), (1, a.w.opts.auto_ping, b.w.opts.auto_ping), (2, a.w.opts.auto_map, b.w.opts.auto_map), (3, a.w.opts.auto_replace, b.w.opts.auto_replace)] {
+            if x != y {
+                b.exec(&Op::SetAuto { which, on: x });
+            }
         }
         b.now_ms = a.now_ms;
         b.alt = a.alt;
